@@ -8,9 +8,9 @@ from pyvc.values import Ref, OutOfReach
 for q in ("Duration._copy", "Duration.is_exact", "Duration.get_is_in_weeks",
           "Duration._get_non_nominal_seconds", "Duration.get_seconds",
           "Duration.to_days", "Duration.__rmul__", "Duration.__sub__",
-          "Duration.__init__", "TimeZone.__init__", "Duration.__bool__"):
+          "Duration.__init__", "Duration.__bool__"):
     contract("data:" + q, inline=True)
-for q in ("_type_checker", "_int_caster", "_bounds_checker"):
+for q in ("_type_checker", "_int_caster"):
     contract("data:" + q, inline=True)
 
 
